@@ -7,10 +7,10 @@ import PyModeS.Model.Adsb
 namespace PyModeS
 
 /-- `_calc_noise`: minimum of the means of the complete 200-sample windows (`min([])` raises) -/
-def calcNoise (buf : List Rat) : Res Rat :=
+def calcNoise (buf : Array Rat) : Res Rat :=
   let window := Tables.rtlSamplesPerMicrosec * 100
-  let n := buf.length / window
-  let means := (List.range n).map (fun k => ((buf.drop (k * window)).take window).foldl (· + ·) 0 / (window : Rat))
+  let n := buf.size / window
+  let means := (List.range n).map (fun k => (buf.extract (k * window) (k * window + window)).foldl (· + ·) 0 / (window : Rat))
   match means with
   | [] => .exc
   | m :: ms => .val (ms.foldl min m)
@@ -47,16 +47,16 @@ def checkMsg (m : Msg) : Bool :=
   else false
 
 /-- the `while i < buffer_length` loop; `fuel` ≥ buffer length suffices (i grows by ≥ 1 per turn) -/
-def demodLoop (buf : List Rat) (minAmp : Rat) : Nat → Nat → List Msg → Res (List Msg × Nat)
+def demodLoop (buf : Array Rat) (minAmp : Rat) : Nat → Nat → List Msg → Res (List Msg × Nat)
   | 0, i, out => .val (out, i)
   | fuel + 1, i, out =>
-    if i ≥ buf.length then .val (out, i)
+    if i ≥ buf.size then .val (out, i)
     else if buf.getD i 0 < minAmp then demodLoop buf minAmp fuel (i + 1) out
     else
       let frameStart := i + Tables.rtlPbits * 2
-      if checkPreamble ((buf.drop i).take (Tables.rtlPbits * 2)) then
+      if checkPreamble (buf.extract i (i + Tables.rtlPbits * 2)).toList then
         let frameLength := (Tables.rtlFbits + 1) * 2
-        let fp := (buf.drop frameStart).take frameLength
+        let fp := (buf.extract frameStart (frameStart + frameLength)).toList
         match fp with
         | [] => .exc                       -- max([]) raises ValueError
         | x :: xs =>
@@ -70,10 +70,11 @@ def demodLoop (buf : List Rat) (minAmp : Rat) : Nat → Nat → List Msg → Res
       else demodLoop buf minAmp fuel (i + 1) out
 
 /-- `_process_buffer`: (messages, new noise floor, remaining buffer) -/
-def processBuffer (noiseFloor : Rat) (buf : List Rat) : Res (List Msg × Rat × List Rat) := do
+def processBuffer (noiseFloor : Rat) (buf : Array Rat) : Res (List Msg × Rat × Nat) := do
   let nf := min (← calcNoise buf) noiseFloor
   let minAmp := (3162 : Rat) / 1000 * nf
-  let (out, i) ← demodLoop buf minAmp (buf.length + 1) 0 []
-  pure (out, nf, buf.drop i)
+  let (out, i) ← demodLoop buf minAmp (buf.size + 1) 0 []
+  -- (messages, noise floor, length of the remaining buffer `signal_buffer[i:]`)
+  pure (out, nf, buf.size - i)
 
 end PyModeS
